@@ -12,9 +12,10 @@ META = {
         "14.b the week reported for a date contains it and starts on the chosen weekday (every date, every start)",
         "14.L reference-calendar lemma for the small-step stand-in",
         "14.c stepping a civil week by n moves its first day by 7n and lands on a valid week index, for every month-start / month-length table, start weekday, valid index and |n| <= 6 (engine B; month-border loop unrolled with the bound proved)",
+        "14.d the index of a civil week in its year = (its first day - first day of the week, same start weekday, that contains January 1 of the month's year) / 7, for every year start and length, month inside the year, start weekday and valid index (engine B; search loop unrolled 55 times, bound proved)",
         "14.f the same for lunar weeks (month lengths 29..30); 14.g first day of a lunar week: weekday, position, coverage (engine B); 14.a/B the civil first-day clause again on engine B",
     ],
-    "outside": ["14.d index of a week in its year", "lunar week -> its seven days, week of a lunar date",
+    "outside": ["lunar week -> its seven days, week of a lunar date",
                 "week stepping for |n| > 6 (civil) / 8 (lunar)"],
     "assumptions": [
         "SolarDay::get_julian_day = (day count of the month's 1st) + days between - 0.5 (refcal::rel_offset, sums of month lengths; 01.c/01.r/13.L); the day count of the 1st is one concrete representative per weekday (7 jobs): magnitude bound, the weekday function itself is 07.a",
@@ -22,6 +23,7 @@ META = {
         "AbstractCulture::index_of as a 32-bit computation for |index| < 2^30 (engine B: the real one is the mathematical mod)",
         "stub fmt_empty for std::fmt::format (error payloads)",
         "engine B week kernels: months are objects on a month line with tiling first-day numbers (civil lengths any 21..31, lunar 29..30); the first of a month falls on weekday (day number + 1) mod 7 (07.a); index_of is the mathematical remainder (11.a); (x as f64 / 7.0).ceil() = ceiling division (exact for these magnitudes); Week equality = index equality (names are distinct: 11.d)",
+        "14.d: days are day numbers, a week is its first day (14.a), stepping a week moves it 7 days (14.c), January 1 and the year lengths (355..366) are arbitrary, SolarDay equality = equal day numbers (01.b)",
         "quick tier: Monday (the real weekday of 1582-10-01) plus one more of the 7 weekdays of the 1st, rotated by VERIF_SEED; thorough: all 7",
     ],
 }
@@ -48,7 +50,7 @@ def engine_b(tier, seed, scr):
     eng, err = engine(scr, "14.c/B/week-next", "14.c")
     if eng is None:
         return err
-    return [weeks.k_week_first_day(eng, False), weeks.k_week_first_day(eng, True), weeks.k_week_next(eng, True), weeks.k_week_next(eng, False)]
+    return [weeks.k_week_first_day(eng, False), weeks.k_week_first_day(eng, True), weeks.k_week_index_in_year(eng), weeks.k_week_next(eng, True), weeks.k_week_next(eng, False)]
 
 def fallback_candidates(j):
     """concrete inputs for the native confirmation of a solver-flagged obligation (the body's draw order)"""
